@@ -771,3 +771,85 @@ def _covered_fields(rv, kinds, allow_none_filter=True):
 
 def is_raising(mem) -> bool:
     return mem is not None and mem.kind == "func" and always_raises(mem.node)
+
+
+# ---------------------------------------------------------------------------
+# constructor effects: which instance attributes exist after __init__, and
+# which constructor parameter each one holds
+
+def init_effects(model, c, _depth=0, _start=None):
+    """{attribute: ("param", name) | ("value", source text)} established by
+    constructing an instance of *c*: direct `self.a = ...` stores plus, through
+    explicit `Base.__init__(self, ...)` / `super().__init__(...)` calls, the
+    effects of the base constructors with their parameters bound to the
+    arguments given.  Calls that cannot be resolved contribute nothing."""
+    import ast as _ast
+    if _depth > 6:
+        return {}
+    mro = [k for k in model.mro(c) if not isinstance(k, str)]
+    start = 0 if _start is None else _start
+    owner = None
+    mem = None
+    for i in range(start, len(mro)):
+        m_ = mro[i].members.get("__init__")
+        if m_ is not None and m_.kind == "func":
+            owner, mem, start = mro[i], m_, i
+            break
+    if mem is None:
+        return {}
+    fn = mem.node
+    params = [a.arg for a in fn.args.args[1:]] + [a.arg for a in fn.args.kwonlyargs]
+    out = {}
+
+    def classify(v):
+        if isinstance(v, _ast.Name) and v.id in params:
+            return ("param", v.id)
+        return ("value", _ast.unparse(v))
+
+    for st in _ast.walk(fn):
+        if isinstance(st, (_ast.Assign, _ast.AnnAssign)):
+            targets = st.targets if isinstance(st, _ast.Assign) else [st.target]
+            for t in targets:
+                if isinstance(t, _ast.Attribute) and isinstance(t.value, _ast.Name) \
+                        and t.value.id == "self" and st.value is not None:
+                    out[t.attr] = classify(st.value)
+        if isinstance(st, _ast.Call) and isinstance(st.func, _ast.Attribute) \
+                and st.func.attr == "__init__":
+            recv = st.func.value
+            base = None
+            args = list(st.args)
+            nxt = None
+            if isinstance(recv, _ast.Call) and _ast.unparse(recv.func) == "super":
+                nxt = start + 1
+                base = c
+            elif isinstance(recv, _ast.Name):
+                for k in mro:
+                    if k.name == recv.id:
+                        base = k
+                if args and isinstance(args[0], _ast.Name) and args[0].id == "self":
+                    args = args[1:]
+            if base is None:
+                continue
+            sub = init_effects(model, base, _depth + 1, nxt)
+            # bind the callee's parameters
+            bmro = [k for k in model.mro(base) if not isinstance(k, str)]
+            bfn = None
+            for i in range(nxt or 0, len(bmro)):
+                m_ = bmro[i].members.get("__init__")
+                if m_ is not None and m_.kind == "func":
+                    bfn = m_.node
+                    break
+            if bfn is None:
+                continue
+            bparams = [a.arg for a in bfn.args.args[1:]]
+            binding = {}
+            for pn, a in zip(bparams, args):
+                binding[pn] = classify(a)
+            for k in st.keywords:
+                if k.arg is not None:
+                    binding[k.arg] = classify(k.value)
+            for attr, val in sub.items():
+                if val[0] == "param":
+                    val = binding.get(val[1], ("value", "<default>"))
+                out.setdefault(attr, val)
+    return out
